@@ -177,7 +177,7 @@ def handle : List String → String
   | ["snippet", m, c, a, toks] =>
     match m.toNat?, parseText c a, parseSToks toks with
     | some m, some s, some ts =>
-      match snippet s m ts with
+      match snippet stopMode s m ts with
       | none => "panic"
       | some sn =>
         let html := match toHtml sn with
